@@ -932,7 +932,34 @@ func historyCase(t ev.Failer, c *ev.Collector, p hprogram, porcu bool) {
 		// the connections may be out of step, so the server is replaced
 		c.Inconclusive("history run: %v", err)
 		c.Label("run-error")
+		short := err.Error()
+		if i := strings.LastIndex(short, ": "); i >= 0 {
+			short = short[i+2:]
+		}
+		c.Label("run-error:" + short)
+		// a stall of the machine, or a server that no longer answers? Ask a
+		// fresh connection for something that needs the shared and the
+		// exclusive lock, with a long budget.
+		hung := ""
+		if h := getHistServer(p.Spin); h != nil {
+			time.Sleep(2 * time.Second)
+			if pc, derr := h.srv.Dial(); derr == nil {
+				for _, probe := range [][]string{{"SERVER"}, {"CONFIG", "GET", "keepalive"}} {
+					if serr := pc.Send(probe...); serr != nil {
+						break
+					}
+					if _, rerr := pc.RecvTimeout(90 * time.Second); rerr == t38.ErrHang {
+						hung = probe[0]
+						break
+					}
+				}
+				pc.Close()
+			}
+		}
 		dropHistServer(p.Spin)
+		if hung != "" {
+			c.Fail(t, "server-hang", fmt.Sprintf("after a concurrent history ended with %q the server did not answer %s on a fresh connection within 90 s although no client was active any more", err.Error(), hung), historyReplay{Program: p})
+		}
 		return
 	}
 	v, st, err := checkHistory(p, obs, log, final)
